@@ -1384,6 +1384,69 @@ def canon_e2e(o):
     return o
 
 
+SUBST_NAMES = ["vehicle", "building", "Animal", "item", "Zeta", "alpha", "b", "a"]
+
+
+def make_subst_schema(rng, n_ns=1):
+    """Substitution groups whose *heads* are referenced from xs:choice / xs:sequence particles:
+    2-4 heads (simple or complex typed, sometimes abstract), 1-3 members each, a root type whose
+    choice refers to 2-4 different heads (all refs substituted -> the compound field may be named
+    after the groups), optionally mixed with a plain element or a second choice."""
+    heads = rng.sample(SUBST_NAMES, rng.randint(2, 4))
+    tns = "urn:sg"
+    body = []
+    if rng.random() < 0.5:
+        body.append('<xs:complexType name="Base"><xs:sequence><xs:element name="v" type="xs:string" minOccurs="0"/></xs:sequence></xs:complexType>')
+        ctype = "sg:Base"
+    else:
+        ctype = None
+    for h in heads:
+        t = ctype if ctype and rng.random() < 0.4 else rng.choice(["xs:string", "xs:int", "xs:date"])
+        abstract = ' abstract="true"' if rng.random() < 0.2 else ""
+        body.append(f'<xs:element name="{h}" type="{t}"{abstract}/>')
+        for k in range(rng.randint(1, 3)):
+            body.append(f'<xs:element name="{h}M{k}" type="{t}" substitutionGroup="sg:{h}"/>')
+
+    def choice(refs, extra):
+        mx = rng.choice(["1", "unbounded", "3"])
+        parts = [f'<xs:element ref="sg:{r}"/>' for r in refs]
+        if extra:
+            parts.insert(rng.randrange(len(parts) + 1), '<xs:element name="plain" type="xs:string"/>')
+        return f'<xs:choice maxOccurs="{mx}">' + "".join(parts) + "</xs:choice>"
+
+    refs = rng.sample(heads, rng.randint(2, len(heads)))
+    inner = choice(refs, rng.random() < 0.25)
+    if rng.random() < 0.3:
+        inner = "<xs:sequence>" + inner + choice(rng.sample(heads, 2), False) + "</xs:sequence>"
+    elif rng.random() < 0.3:
+        inner = '<xs:sequence maxOccurs="unbounded">' + "".join(f'<xs:element ref="sg:{r}"/>' for r in refs) + "</xs:sequence>"
+    body.append(f'<xs:element name="root"><xs:complexType>{inner}</xs:complexType></xs:element>')
+    text = (
+        f'<xs:schema xmlns:xs="{XS}" xmlns:sg="{tns}" targetNamespace="{tns}" elementFormDefault="qualified">'
+        + "".join(body)
+        + "</xs:schema>"
+    )
+    return {"sg.xsd": text}
+
+
+def compound_options(rng, style=None):
+    """compound fields with the options that have no command line flag (project file / API only)"""
+    o = {"structure_style": style or rng.choice(E2E_STYLES), "package": rng.choice(["gen", "gen.out"]),
+         "compound_fields__enabled": True}
+    if rng.random() < 0.75:
+        o["compound_fields__use_substitution_groups"] = True
+    r = rng.random()
+    if r < 0.2:
+        o["compound_fields__force_default_name"] = True
+    elif r < 0.45:
+        o["compound_fields__max_name_parts"] = rng.choice([1, 2, 4])
+    if rng.random() < 0.25:
+        o["compound_fields__default_name"] = rng.choice(["choice", "value", "any_of"])
+    if rng.random() < 0.3:
+        o["unnest_classes"] = True
+    return o
+
+
 def gen_e2e(rng, tier):
     n = 24 if tier == "quick" else 800
     k = 0
@@ -1393,6 +1456,9 @@ def gen_e2e(rng, tier):
         if k == 0:
             # a base class that is looked up while it is being finalised (fixed C12-F1)
             schemas, options = SEQLEAK_SCHEMA, dict(SEQLEAK_OPTIONS, structure_style="clusters")
+        elif k % 4 == 1:
+            # substitution group heads in choices, compound fields with the file-only options
+            schemas, options = make_subst_schema(rng), compound_options(rng)
         else:
             schemas = make_schema_set(rng)
             options = e2e_options(rng)
@@ -2020,6 +2086,96 @@ def covered_overrides(a, msg):
     return "C12-F7"
 
 
+# ----------------------------------------------------------------------------
+# gen.choose_name : CreateCompoundFields.choose_name
+# ----------------------------------------------------------------------------
+def local_choose_name(a):
+    from xsdata.codegen.container import ClassContainer
+    from xsdata.codegen.handlers import CreateCompoundFields
+    from xsdata.codegen.models import Attr, AttrType, Class, Status
+    from xsdata.models.config import CompoundFields, GeneratorConfig
+    from xsdata.models.enums import Tag
+
+    cfg = GeneratorConfig()
+    cfg.output.compound_fields = CompoundFields(
+        enabled=True, default_name=a["default_name"], use_substitution_groups=a["use_substitution_groups"],
+        force_default_name=a["force_default_name"], max_name_parts=a["max_name_parts"],
+    )
+    container = ClassContainer(cfg)
+    st = "{http://www.w3.org/2001/XMLSchema}string"
+    target = Class(
+        qname="T", tag=Tag.COMPLEX_TYPE, location="mem", status=Status.FINALIZED,
+        attrs=[Attr(tag=Tag.ELEMENT, name=n, types=[AttrType(qname=st, native=True)]) for n in a["reserved"]],
+    )
+    container.add(target)
+    S.set_shuffle(a.get("seed"))
+    try:
+        return ok(CreateCompoundFields(container).choose_name(target, list(a["names"]), list(a["substitutions"])))
+    finally:
+        S.set_shuffle(None)
+
+
+def impl_choose_name(a):
+    return across_seeds("gen.choose_name", a, local_choose_name)
+
+
+CN_NAMES = ["a", "b", "vehicle", "building", "Zeta", "a_Or_b", "choice", "b_Or_a", "x1"]
+
+
+def gen_choose_name(rng, tier):
+    def case(names, subs, reserved=(), seed=None, **cfg):
+        base = {"default_name": "choice", "use_substitution_groups": False, "force_default_name": False, "max_name_parts": 3}
+        base.update(cfg)
+        return dict(base, names=list(names), substitutions=list(subs), reserved=list(reserved), seed=seed)
+
+    yield case(["a", "b"], [])
+    yield case(["x", "y"], ["vehicle", "building"], use_substitution_groups=True)
+    yield case(["x", "y"], ["building", "vehicle"], use_substitution_groups=True)
+    yield case(["x", "y", "z"], ["vehicle", "building", "vehicle"], use_substitution_groups=True)
+    yield case(["x", "y"], ["vehicle"], use_substitution_groups=True)  # not every attr substituted
+    yield case(["a", "b"], [], ["a_Or_b", "a_Or_b_1"])
+    yield case(["a", "b", "c", "d"], [])
+    yield case(["a", "b"], [], force_default_name=True, default_name="value", reserved=["value"])
+    for i in range(250 if tier == "quick" else 5000):
+        k = rng.randint(1, 5)
+        names = [rng.choice(CN_NAMES) for _ in range(k)]
+        r = rng.random()
+        subs = [rng.choice(CN_NAMES[:5]) for _ in range(k)] if r < 0.5 else ([rng.choice(CN_NAMES[:5])] if r < 0.65 else [])
+        yield dict(
+            case(names, subs, rng.sample(CN_NAMES, rng.randint(0, 3)), rng.randrange(10**6),
+                 use_substitution_groups=rng.random() < 0.6, force_default_name=rng.random() < 0.15,
+                 max_name_parts=rng.choice([1, 2, 3, 3, 5]), default_name=rng.choice(["choice", "value"])),
+            _nw=i % 4 != 0,
+        )
+
+
+def classify_choose_name(a, o):
+    if "err" in o:
+        return "err"
+    by_group = a["use_substitution_groups"] and len(a["names"]) == len(a["substitutions"])
+    default = o["ok"].startswith(a["default_name"]) and "_Or_" not in o["ok"]
+    return f"parts={'groups' if by_group else 'names'},default={'y' if default else 'n'},indexed={'y' if o['ok'][-1:].isdigit() else 'n'}"
+
+
+def check_choose_name(a):
+    """the name is a function of the arguments: the same under every set iteration order, and
+    its parts come in the order of the arguments (document order)"""
+    outs = {json.dumps(local_choose_name(dict(a, seed=sd))) for sd in (None, 1, 2, 3, 4, 5)}
+    if len(outs) > 1:
+        return f"the compound field name depends on the set iteration order: {sorted(outs)}"
+    got = local_choose_name(a)["ok"]
+    parts = a["substitutions"] if a["use_substitution_groups"] and len(a["names"]) == len(a["substitutions"]) else a["names"]
+    uniq = []
+    for x in parts:
+        if x not in uniq:
+            uniq.append(x)
+    if not a["force_default_name"] and len(uniq) <= a["max_name_parts"]:
+        exp = "_Or_".join(uniq)
+        if got != exp and not re.fullmatch(re.escape(exp) + r"_\d+", got):
+            return f"name {got!r}, the parts in document order give {exp!r}"
+    return None
+
+
 IMPLS_LOCAL = {
     "gen.scc": local_scc,
     "gen.toposort": local_toposort,
@@ -2032,6 +2188,7 @@ IMPLS_LOCAL = {
     "gen.circular": local_circular,
     "gen.styles": local_styles,
     "gen.overrides": local_overrides,
+    "gen.choose_name": local_choose_name,
 }
 
 
@@ -2066,6 +2223,9 @@ CORRS = [
     Corr("gen.circular", gen_circular, impl_circular, classify=classify_circular,
          nontrivial=lambda a, o: any(c["types"] for c in a["classes"]),
          describe="DetectCircularReferences.process over real classes in a given visiting order"),
+    Corr("gen.choose_name", gen_choose_name, impl_choose_name, classify=classify_choose_name,
+         nontrivial=lambda a, o: len(a["names"]) > 1,
+         describe="CreateCompoundFields.choose_name on a real class, every CompoundFields option varied, under ShuffledSet"),
     Corr("gen.overrides", gen_overrides, impl_overrides, classify=classify_overrides,
          nontrivial=lambda a, o: len(a["classes"]) > 1,
          describe="ValidateAttributesOverrides through the real container's RESOLVE step, classes visited in a given order"),
@@ -2199,6 +2359,9 @@ def gen_oracle_e2e(rng, tier):
     for style in ("single-package", "filenames", "clusters"):
         yield {"schemas": URI_ORDER_SCHEMAS, "options": {"structure_style": style, "package": "gen"}}
     yield {"schemas": OVERRIDE_ORDER_SCHEMAS, "options": {"structure_style": "namespaces", "package": "gen"}}
+    # compound fields named after substitution groups (options without a command line flag)
+    for _k in range(4 if tier == "quick" else 60):
+        yield {"schemas": make_subst_schema(rng), "options": compound_options(rng, rng.choice(["single-package", "filenames", "clusters"]))}
     for i in range(12 if tier == "quick" else 300):
         # several files more often than not: most axes only bite there
         schemas = make_schema_set(rng, n_ns=rng.choice([0, 1, 2, 3, 2, 3]))
@@ -2417,6 +2580,7 @@ ORACLES = [
     Oracle("paths-follow-cwd", gen_cwd, check_cwd),
     Oracle("circular-flags-only-on-cycles", gen_circular, check_circular, from_ops=("gen.circular",)),
     Oracle("styles-container-order-independent", gen_styles, check_styles, from_ops=("gen.styles",)),
+    Oracle("compound-name-document-order", gen_choose_name, check_choose_name, from_ops=("gen.choose_name",)),
     Oracle("overrides-visiting-order-independent", gen_overrides, check_overrides, covered=covered_overrides,
            from_ops=("gen.overrides",)),
     Oracle("cache-history-independent", gen_cache, check_cache, from_ops=("gen.cache",)),
